@@ -221,3 +221,19 @@ func TestStreamProofs(t *testing.T) {
 	}
 	out.write(t, "proofs")
 }
+
+// TestStreamBsc generates the BSC header-chain stream (C17).
+func TestStreamBsc(t *testing.T) {
+	seed := uint64(envInt("VERIF_SEED", 1))
+	cases := envInt("VERIF_CASES", 6)
+	nops := envInt("VERIF_OPS", 60)
+	out := &streamOut{stats: map[string]int{}}
+	for i := 0; i < cases; i++ {
+		r := &Rng{s: seed*1000003 + uint64(i)*7919 + 81}
+		w := NewWorld(t, 1)
+		g := &BscGen{w: w, r: r, stats: map[string]int{}}
+		g.Run(nops, i)
+		out.add(w, g.stats)
+	}
+	out.write(t, "bsc")
+}
